@@ -60,6 +60,11 @@ def run(ctx):
         # the frame reference: result of index_mut / last_mut on a local stack
         frames = [c for c in b.calls if c.callee_name() in ('index_mut', 'index', 'last_mut', 'last') and strip_ref(c.args[0]).kind == 'escaped']
         if len(frames) != 1:
+            alt = classic_walk(prog, fn)
+            if alt is not None:
+                verdict, msg = alt
+                ctx.add(RULE, fn, 'traversal', verdict, msg, PROPS, fn.line)
+                continue
             ctx.add(RULE, fn, 'traversal', 'violation', 'undecided: the traversal does not examine exactly one frame of an explicit stack per round (%d candidates)' % len(frames), PROPS, fn.line)
             continue
         fr = frames[0]
@@ -249,6 +254,95 @@ def run(ctx):
             ctx.add(RULE, fn, 'traversal', 'violation', '; '.join(sorted(set(problems))[:3]), PROPS, line, {'roles': roles})
         else:
             ctx.add(RULE, fn, 'traversal', 'ok', 'explicit-stack traversal emits left subtree, node, right subtree: emit only on the left-consumed side, once; right child after the emit test; fields cleared when consumed; pop only when nothing is pending', PROPS, line, {'roles': roles})
+
+
+def classic_walk(prog, fn):
+    """the textbook iterative in-order walk over a stack of plain indices:
+         loop { while cur != EMPTY { stack.push(cur); cur = node(cur).left }  let Some(i) = stack.pop() else break;
+                visit(i); cur = node(i).right }
+    returns (verdict, message) if the function has this shape (stack of indices pushed from a cursor), else None"""
+    from rules.gate import known_empty
+    b = fn.body
+    pushes, pops, emits = [], [], []
+    for c in b.calls:
+        nm = c.callee_name()
+        if nm == 'push' and len(c.args) == 2 and strip_ref(c.args[0]).kind == 'escaped':
+            pushes.append(c)
+        elif nm == 'pop' and len(c.args) == 1 and strip_ref(c.args[0]).kind == 'escaped':
+            pops.append(c)
+    stacks = {strip_ref(c.args[0]).args[0] for c in pops}
+    if len(stacks) != 1:
+        return None
+    S = stacks.pop()
+    spush = [c for c in pushes if strip_ref(c.args[0]).args[0] == S]
+    emits = [c for c in pushes if strip_ref(c.args[0]).args[0] != S]
+    if not spush or not emits or (b.locals[S]['ty'] or '').find('u32') < 0:
+        return None
+    problems = []
+    cursors = {strip(c.args[1]).id: strip(c.args[1]) for c in spush}
+    if len(cursors) != 1 or list(cursors.values())[0].kind != 'phi':
+        return None
+    C = list(cursors.values())[0]
+    popped = []
+    for v in b._vals:
+        if v.kind == 'load' and strip(v.args[0]).kind == 'call' and strip(v.args[0]) in pops and tuple(v.fields()) == ('as:Some', '0'):
+            popped.append(v)
+    if not popped:
+        return None
+    popped_ids = {v.id for v in popped}
+    # (a) what is emitted belongs to a popped index
+    for e in emits:
+        idxs = []
+        for x in walk(e.args[1]):
+            nf = prog.node_field(x) if x.kind in ('load', 'ref') else None
+            if nf:
+                idxs.append(strip(nf[0]))
+        if not idxs or any(i.id not in popped_ids for i in idxs):
+            problems.append('the value emitted does not belong to the index just popped from the stack')
+    # (b) the cursor: starts at the root, advances to the left link of what was pushed, restarts at the right link of what
+    #     was popped
+    def all_args(ph, seen):
+        out = []
+        for a in ph.args:
+            a = strip(a)
+            if a.kind == 'phi' and not a.extra.get('anyof'):
+                if a.id not in seen:
+                    seen.add(a.id)
+                    out += all_args(a, seen)
+            else:
+                out.append(a)
+        return out
+    seen = {C.id}
+    srcs = all_args(C, seen)
+    saw_left = saw_right = False
+    for a in srcs:
+        if a.kind == 'load' and prog.self_field(a) == ('root',):
+            continue
+        nf = prog.node_field(a) if a.kind == 'load' else None
+        if nf and nf[1] == ('left',) and strip(nf[0]).id in seen:
+            saw_left = True
+            continue
+        if nf and nf[1] == ('right',) and strip(nf[0]).id in popped_ids:
+            saw_right = True
+            continue
+        if nf and nf[1] == ('right',) and strip(nf[0]).id in seen:
+            problems.append('after pushing a node the walk follows its right link: the node would be emitted before its right subtree but after nothing of its left subtree (descending order)')
+            continue
+        if nf and nf[1] == ('left',) and strip(nf[0]).id in popped_ids:
+            problems.append('after emitting a node the walk continues with its left subtree instead of its right subtree')
+            continue
+        problems.append('the cursor of the walk is assigned %s, which is neither the root, the left link of the node just pushed nor the right link of the node just popped' % show(a, 3))
+    if not saw_left:
+        problems.append('the walk never follows the left link of a pushed node')
+    if not saw_right:
+        problems.append('the walk never continues with the right link of a popped node')
+    # (c) a node is popped (and emitted) only when the way down to the left is exhausted
+    for pc in pops:
+        if not any(known_empty(prog, b, ph, pc.point[0]) for ph in [C] + [b._vals[i] for i in seen if i != C.id and i < len(b._vals)]):
+            problems.append('a node is popped although the cursor may still designate an unvisited left subtree')
+    if problems:
+        return 'violation', '; '.join(sorted(set(problems))[:3])
+    return 'ok', 'textbook explicit-stack in-order walk: push and follow left until empty, pop, emit, continue with the right link'
 
 
 def ffield(x, fr):
